@@ -157,7 +157,7 @@ PROPS = {
     "C12": K("c12", extra=["-Z", "stubbing"], bounds="all 256 vectors, all u8 bound pairs of 15 range forms, all canonical handler addresses, 3-step option-setter programs (unwind 4)",
              stubs=["S-addr: VirtAddr::new -> new_unsafe in c12_load_hands_cpu_own_address only (CBMC object addresses are never canonical)"],
              trusted_base=["rustc->Kani->CBMC", "CaDiCaL", "overlay O1-O4", "ISA model (mov r,cs; lidt)"]),
-    "C13": K("c13", extra=["-Z", "stubbing"], expected_panics=["General handler returned on"], jobs=12, bounds="all 256 vectors x all (lo,hi) pairs; hardware entry/return of extern \"x86-interrupt\" functions is outside (LLVM back end)",
+    "C13": K("c13", extra=["-Z", "stubbing"], expected_panics=["General handler returned on"], jobs=14, bounds="all 256 vectors x all (lo,hi) pairs; hardware entry/return of extern \"x86-interrupt\" functions is outside (LLVM back end)",
              stubs=["S-addr: VirtAddr::new -> new_unsafe (function addresses in CBMC are not canonical)"]),
     "C19": K("c19", pre=_c19_pre, post_evidence=_c19_post,
              bounds="finite: every public constant (coverage-gated against the tree) + codecs over all u8/u16/u64 inputs",
